@@ -812,7 +812,7 @@ func (g *Gen) RollbackProbe() Tx {
 			reader = &ct.MsgPauseBurningAndMinting{From: m.Pauser}
 		}
 	}
-	failing := &ct.MsgRemoveRemoteTokenMessenger{From: "not-the-owner", DomainId: 0}
+	failing := &ct.MsgRemoveRemoteTokenMessenger{From: Nobody(), DomainId: 0}
 	probe := []sdk.Msg{first, reader, failing}
 	if g.noSameBlock || r.Intn(2) == 0 || len(follow) == 0 {
 		for _, f := range follow {
